@@ -372,6 +372,8 @@ def fail_key(cfg, m, idx, kind):
         return "unknown_pt_mult:table-sized-by-fxp-window:unkpt_win_bits>fxp_win_bits:" + kind
     if not cfg["proj"] and ((uses_unk and e["unk_eff"] == 1) or (uses_fxp and cfg["fxp"] == 1)):
         return "pre_dbl_mult:affine:" + kind
+    if m.get("long") and ((uses_unk and e["unk_eff"] == 1) or (uses_fxp and cfg["fxp"] == 1)):
+        return "pre_dbl_mult:scalar-longer-than-field-bits:" + kind
     if (uses_unk and e["unk_eff"] in (3, 4) and e["unkw_eff"] > cfg["digit"]) or \
        (uses_fxp and cfg["fxp"] in (3, 4) and cfg["fxpw"] > cfg["digit"]):
         return "comb_mult:window-bits>digit-bits:" + kind
@@ -472,8 +474,11 @@ def run_rows(cfg, exe, C, sel, fails, stats, per_key):
             if r is None:
                 stats["skipped_rows"] += 1; continue
             stats["rows"] += 1
-            if isinstance(r, dict):
-                # the driver died somewhere inside this row: run its operands one by one to see which
+            if isinstance(r, dict) or len(r) != len(exp):
+                # the driver died somewhere inside this row, or (memory corruption in the build without sanitizers, e.g.
+                # the loop counter of the driver overwritten) answered it short: run its operands one by one to see which
+                if not isinstance(r, dict):
+                    r = {"crash": ("short-answer", "", "", "%d results for %d operands" % (len(r), len(exp))), "raw": " ".join(r[:6])}
                 stats["crashed_rows"] = stats.get("crashed_rows", 0) + 1
                 if stats["crashed_rows"] > 12: stats["skipped_rows"] += 1; continue
                 sub, _ = drive(exe, [one_line(m, j) for j in range(len(exp))], timeout=600, max_crashes=4)
@@ -487,7 +492,7 @@ def run_rows(cfg, exe, C, sel, fails, stats, per_key):
                             fails.append((key, "config %s\ncase %s\n%s: %s %s\n%s" % (cfg_name(cfg), one_line(m, j), k[0], k[1], k[2], rj["raw"][-1500:]),
                                           {"config": cfg_defs(cfg), "line": one_line(m, j), "crash": list(k)}))
                     elif rj != [exp[j]]:
-                        g = rj[0] if rj else "?"
+                        g = rj[0] if len(rj) == 1 else "?(%d results)" % len(rj)
                         key = fail_key(cfg, m, j, "wrong-result")
                         per_key[key] = per_key.get(key, 0) + 1
                         if per_key[key] <= MAX_PER_KEY:
@@ -502,8 +507,6 @@ def run_rows(cfg, exe, C, sel, fails, stats, per_key):
                         fails.append((key, "config %s\ncase %s\n%s: %s %s\n%s" % (cfg_name(cfg), C.lines[i][:300], k[0], k[1], k[2], r["raw"][-1500:]),
                                       {"config": cfg_defs(cfg), "line": C.lines[i][:2000], "crash": list(k)}))
                 continue
-            if len(r) != len(exp):
-                raise common.Infra("driver answered %d results for %d expected (%s): %s" % (len(r), len(exp), r[:2], C.lines[i][:200]))
             stats["evaluations"] += len(exp)
             if r == exp: continue
             seen = set()
@@ -565,8 +568,13 @@ def hx(v): return "%x" % v
 def hp(sx):
     if sx == "inf": return []
     x, y = sx.split(","); return [int(x, 16), int(y, 16)]
-def pseudo_meta(kind, x):
+def pseudo_meta(kind, x, mbits=0):
     """meta record (as for mode B rows) of a mode C call, so that both modes key a failure the same way"""
+    m_ = pseudo_meta0(kind, x)
+    ks = [a for a in m_["args"] if isinstance(a, int)] + ([m_["l"]] if "l" in m_ else [])
+    m_["long"] = bool(mbits) and any(k.bit_length() > mbits for k in ks)
+    return m_
+def pseudo_meta0(kind, x):
     if kind in ("add", "sub"): return {"op": kind, "P": hp(x[3]), "args": [hp(x[4])]}
     if kind == "dbl": return {"op": "dbl", "P": hp(x[3]), "args": [hp(x[3])]}
     if kind == "bp": return {"op": "mulbp", "P": hp(x[3]), "args": [x[4]]}
@@ -584,7 +592,8 @@ def modec(ctx, cfg, exe, names, rng, full_names, nsample):
     vres, _ = drive(exe, ["validate %s" % n for n in curves], timeout=900, max_crashes=40)
     for n, r in zip(list(curves), vres):
         # the only group computation of ec_curve_validate is n*G through the unknown-point multiplier
-        mk = lambda kind: fail_key(cfg, {"op": "mul", "P": [1, 1], "args": [2]}, 0, kind)
+        longn = int(curves[n]["n"], 16).bit_length() > int(curves[n]["m"])
+        mk = lambda kind: fail_key(cfg, {"op": "mul", "P": [1, 1], "args": [2], "long": longn}, 0, kind)
         generic = "unknown_pt_mult:%s:" % FXP[eff(cfg)["unk_eff"]]
         if r is None: continue
         if isinstance(r, dict):
@@ -602,8 +611,7 @@ def modec(ctx, cfg, exe, names, rng, full_names, nsample):
     info = {}
     l1 = []
     for n, f in curves.items():
-        # scalars 0 <= k <= n of bit length <= curve size (secp160r1/r2: n has 161 bits, m = 160)
-        nn = min(int(f["n"], 16), (1 << int(f["m"])) - 1); G = "%s,%s" % (f["gx"], f["gy"]); k1 = rng.randrange(3, nn - 1)
+        nn = int(f["n"], 16); G = "%s,%s" % (f["gx"], f["gy"]); k1 = rng.randrange(3, nn - 1)
         info[n] = (nn, G, k1)
         l1.append("mulbp %s D %s" % (n, hx(k1)))
     r1, _ = drive(exe, l1, timeout=900)
@@ -638,7 +646,12 @@ def modec(ctx, cfg, exe, names, rng, full_names, nsample):
             lad(G, k); lad(P1, l)
             l2.append(("twinbp %s M %s %s %s" % (n, P1, hx(l), hx(k)), n, "twinbp", (G, k), (P1, l)))
             l2.append(("twin %s D %s %s %s %s" % (n, G, P1, hx(l), hx(k)), n, "twin", (G, k), (P1, l)))
-    r2, _ = drive(exe, [x[0] for x in l2], timeout=1500, max_crashes=40)
+    # one process per entry point, so that memory damage done by one of them cannot surface as a crash of another
+    r2 = [None] * len(l2)
+    for grp in (("lad", "add", "sub", "dbl"), ("bp",), ("unk",), ("twinbp",), ("twin",)):
+        ix = [i for i, x in enumerate(l2) if x[2] in grp]
+        rr, _ = drive(exe, [l2[i][0] for i in ix], timeout=1500, max_crashes=20)
+        for i, r in zip(ix, rr): r2[i] = r
     ladders = {}
     for x, r in zip(l2, r2):
         if x[2] == "lad": ladders[(x[1], x[3], x[4])] = r
@@ -665,11 +678,11 @@ def modec(ctx, cfg, exe, names, rng, full_names, nsample):
         if r is None: continue
         if isinstance(r, dict):
             k = r["crash"]
-            fails.append((fail_key(cfg, pseudo_meta(kind, x), 0, "crash"),
+            fails.append((fail_key(cfg, pseudo_meta(kind, x, int(curves[n]["m"])), 0, "crash"),
                           "config %s built-in curve %s\n%s\n%s: %s\n%s" % (cfg_name(cfg), n, line[:200], k[0], k[1], r["raw"][-1200:]),
                           {"config": cfg_defs(cfg), "line": line[:1500]})); continue
         if not tok_ok(r):
-            fails.append((fail_key(cfg, pseudo_meta(kind, x), 0, "wrong-result"),
+            fails.append((fail_key(cfg, pseudo_meta(kind, x, int(curves[n]["m"])), 0, "wrong-result"),
                           "config %s built-in curve %s: %s -> %s" % (cfg_name(cfg), n, line[:160], r[:2]),
                           {"config": cfg_defs(cfg), "line": line[:1500]})); continue
         if kind == "lad": continue
@@ -691,7 +704,7 @@ def modec(ctx, cfg, exe, names, rng, full_names, nsample):
             ev.append({"op": "twin", "ci": cidx[n], "P": pt_limbs(Pa), "k": limbs13(hx(k)), "stepsP": steps_of(sp, cp),
                        "chkP": cp, "Q": pt_limbs(Qa), "l": limbs13(hx(l)), "stepsQ": steps_of(sq, cq),
                        "chkQ": cq, "R": [pt_limbs(r[0])]})
-        evmeta.append((kind, n, line[:300], pseudo_meta(kind, x)))
+        evmeta.append((kind, n, line[:300], pseudo_meta(kind, x, int(curves[n]["m"]))))
     stats["events"] = len(ev) - len(curves)
     return fails, ev, evmeta, stats
 
